@@ -535,11 +535,7 @@ theorem total_postStop (i : Nat) (w : W) : total i w.postStop = total i w := by
     | cons m ms ih =>
       intro e
       rw [List.foldl_cons, ih, cEnv_dropMsg, cInbox_cons i m ms]; omega
-  have h5 : cPool i (w.pool.map fun p => { p with mq := [] }) = 0 := by
-    simp only [cPool, List.map_map, Function.comp_def, cj_nil]
-    induction w.pool with
-    | nil => rfl
-    | cons p ps ih => simpa using ih
+  have h5 : cPool i ([] : List WP) = 0 := rfl
   have hsup : ∀ (e : Env) (s : List Nat), cEnv i { e with sup := s } = cEnv i e := fun _ _ => rfl
   simp only [total, h5, cj_nil]
   rw [hsup, h4, cEnv_emit _ _ _ rfl, h3, h2, h1]
